@@ -9,15 +9,17 @@
                                             (request k answers <cc> unprocessed / write k stores only n bytes /
                                              write k is stored as sent but acknowledged with count n)
     snap                                    INITIAL := CURRENT (histories: the model runs one step from here)  -> ok
-    run <flags 0..3> <op> …      model on the INITIAL device -> <outcome> | <trace> | <contents>
-        flags: bit 0 = get_fru_multirecord_area as shipped, bit 1 = _read_fru_area rejects area length 0
-        read <id> <off|n> <cnt>      read_fru_data           outcome  ok <hex>
+    run <flags 0..127> <op> …    model on the INITIAL device -> <outcome> | <trace> | <contents>
+        flags: bit 0 = get_fru_multirecord_area as shipped, bit 1 = _read_fru_area rejects area length 0,
+               bit 2 = read_fru_data honours a count / an offset given alone (fixes/C10-2.diff),
+               bits 3..6 = get_fru_{chassis,board,product,multirecord}_area return None for an absent area
+        read <id> <off|n> <cnt|n>    read_fru_data           outcome  ok <hex>       (n = argument left out / None)
         full <id>                    read_fru_data_full
         write <id> <off> <hex> [wl]  write_fru_data          outcome  ok -     (wl: the caller set Fru.write_length = wl;
                                                                                 default: the generated constant)
         hdr <id>                     get_fru_inventory_header         ok <i>,<c>,<b>,<p>,<m>   (n = None)
-        area <id> <c|b|p>            get_fru_{chassis,board,product}_area
-        mr <id>                      get_fru_multirecord_area
+        area <id> <c|b|p>            get_fru_{chassis,board,product}_area      ok <hex> | ok n      (n = None)
+        mr <id>                      get_fru_multirecord_area                  ok <hex> | ok n
         inv <id>                     get_fru_inventory                ok <c> <b> <p> <m>       (n = absent)
     cfg                                                     generated constants
     trace ::= <cmd>:<hex>><hex>,…   (- when empty)
@@ -84,13 +86,13 @@ def finish {α} (r : Res FaultyDev α) (f : α → String) : String :=
 
 def cfg : Cfg := PyIpmi.Gen.Loops10.fruCfg
 
-def runOp (d : FaultyDev) (shipped lenChk : Bool) (op : List String) : String :=
+def runOp (d : FaultyDev) (v : Var) (op : List String) : String :=
   let respond := respondF
   let w : World FaultyDev := ⟨d, []⟩
   match op with
   | ["read", id, off, cnt] =>
-    match id.toNat?, optNat off, cnt.toNat? with
-    | some id, some off, some cnt => finish (readFruData cfg respond w off cnt id) toHex
+    match id.toNat?, optNat off, optNat cnt with
+    | some id, some off, some cnt => finish (readFruDataV v.rangeFix cfg respond w off cnt id) toHex
     | _, _, _ => "bad-op"
   | ["full", id] =>
     match id.toNat? with
@@ -115,15 +117,15 @@ def runOp (d : FaultyDev) (shipped lenChk : Bool) (op : List String) : String :=
     let ar : Option Area := if a == "c" then some .chassis else if a == "b" then some .board
       else if a == "p" then some .product else none
     match id.toNat?, ar with
-    | some id, some ar => finish (getInfoArea cfg respond lenChk w ar id) toHex
+    | some id, some ar => finish (getInfoArea cfg respond v w ar id) showOptBytes
     | _, _ => "bad-op"
   | ["mr", id] =>
     match id.toNat? with
-    | some id => finish (getMultirecord cfg respond shipped w id) toHex
+    | some id => finish (getMultirecord cfg respond v w id) showOptBytes
     | _ => "bad-op"
   | ["inv", id] =>
     match id.toNat? with
-    | some id => finish (getInventory cfg respond shipped lenChk w id) fun i =>
+    | some id => finish (getInventory cfg respond v w id) fun i =>
         " ".intercalate [showOptBytes i.chassis, showOptBytes i.board, showOptBytes i.product, showOptBytes i.multi]
     | _ => "bad-op"
   | _ => "bad-op"
@@ -151,9 +153,12 @@ def handle (s : St) (line : String) : St × String :=
     | some l => ({ s with cur := { s.cur with seen := 0, faults := l } }, "ok")
     | none => (s, "bad-op")
   | "run" :: sh :: op =>
-    -- flags: bit 0 = get_fru_multirecord_area as shipped, bit 1 = _read_fru_area checks the area length
+    -- flags: bit 0 = get_fru_multirecord_area as shipped, bit 1 = _read_fru_area checks the area length,
+    -- bit 2 = read_fru_data range repair, bits 3..6 = absent-area guard of the chassis/board/product/multirecord getter
     match sh.toNat? with
-    | some v => (s, runOp s.init (v % 2 != 0) (v / 2 % 2 != 0) op)
+    | some v =>
+      let b := fun (k : Nat) => v / 2 ^ k % 2 != 0
+      (s, runOp s.init ⟨b 0, b 1, b 2, b 3, b 4, b 5, b 6⟩ op)
     | none => (s, "bad-op")
   | _ => (s, "bad-op")
 
